@@ -338,5 +338,5 @@ package funcs
 //@ sweep[C01] obfuscatedResource UrldecodeHandle
 
 // C16: run-time builtins and their helpers write only run-time state (see runtime.runWrites)
-//@ framesweep[C16] runtime.runWrites * -*Checking -init -InitLog -reIndexFuncArgs -UserAgentHandle
-//@ framesweep[C16] engine.loadWrites *Checking
+//@ framesweep[C16,C15] runtime.runWrites * -*Checking -init -InitLog -reIndexFuncArgs -UserAgentHandle
+//@ framesweep[C16,C15] engine.loadWrites *Checking
